@@ -10,6 +10,7 @@ import (
 	"errors"
 	"flag"
 	"fmt"
+	"math"
 	"os"
 	"strconv"
 	"strings"
@@ -51,6 +52,22 @@ func gen(tier string, out *vlib.Out) {
 		"new conc-linked\nasslice",
 		"new conc-cow\nasslice",
 		"new conc-array 0\nasslice",
+		// zero-valued elements through every constructor and writer (a zero element is an element)
+		"new array 0\nappend 0\nlen\nappend 0,0\nadd 0 0\nadd 4 0\nset 1 0\nget 1\nasslice\nrange\ndelete 0\ndelete 3\nlen\nasslice",
+		"new linked\nappend 0\nlen\nappend 0,0\nadd 0 0\nadd 4 0\nset 1 0\nget 1\nasslice\nrange\ndelete 0\ndelete 3\nlen\nasslice",
+		"new cow\nappend 0\nlen\nappend 0,0\nadd 0 0\nadd 4 0\nset 1 0\nget 1\nasslice\nrange\ndelete 0\ndelete 3\nlen\nasslice",
+		"new arrayof 0,0,5,0\nlen\nasslice\nget 0\nadd 4 0\nadd 0 0\nset 2 0\ndelete 5\nrangestop 1\nasslice",
+		"new linkedof 0,0,5,0\nlen\nasslice\nget 0\nadd 4 0\nadd 0 0\nset 2 0\ndelete 5\nrangestop 1\nasslice",
+		"new cowof 0,0,5,0\nlen\nasslice\nget 0\nadd 4 0\nadd 0 0\nset 2 0\ndelete 5\nrangedo 1 set 0 0\nasslice",
+		"new conc-linked\nappend 0\nadd 1 0\nlen\nasslice",
+		// 5 -> 0 -> 5: overwriting with the zero value and back
+		"new arrayof 5\nset 0 0\nget 0\nset 0 5\nget 0",
+		"new linkedof 5\nset 0 0\nget 0\nset 0 5\nget 0",
+		// negative, extreme and repeated elements
+		"new linked\nappend -1,-9223372036854775808,9223372036854775807\nadd 1 -5\nset 0 -2\nget 2\ndelete 2\nasslice",
+		"new array 2\nappend -1,-9223372036854775808,9223372036854775807\nadd 1 -5\nset 0 -2\nget 2\ndelete 2\nasslice",
+		"new cowof 7,7,7\nadd 1 7\ndelete 1\nset 2 7\nappend 7,7\ndelete 0\nasslice",
+		"new linkedof 7,7,7\nadd 1 7\ndelete 1\nset 2 7\nappend 7,7\ndelete 0\nasslice",
 	}
 	for _, c := range corpus {
 		for _, l := range strings.Split(c, "\n") {
@@ -58,7 +75,22 @@ func gen(tier string, out *vlib.Out) {
 		}
 	}
 	val := 0
-	next := func() int { val++; return val }
+	fresh := func() int { val++; return val }
+	// mostly fresh positive values (every position identifiable); sometimes the zero value, a negative,
+	// a repeat of the latest fresh value or an extreme int. Never -777/-888: the aliasing probe's marks.
+	next := func() int {
+		switch p := r.Intn(100); {
+		case p < 6:
+			return 0
+		case p < 9:
+			return -r.Range(1, 9)
+		case p < 12:
+			return val
+		case p < 13:
+			return vlib.Pick(r, []int{math.MaxInt, math.MinInt})
+		}
+		return fresh()
+	}
 	if tier == "thorough" {
 		exhaustive(out)
 	}
